@@ -563,9 +563,12 @@ def check_lineage_loops(ctx):
                 st = c
                 while not isinstance(st, ast.stmt):
                     st = st._parent
-                tgt = src(st.targets[0]).replace(' ', '') if isinstance(st, ast.Assign) else None
-                if tgt != '%s[%s]' % (dest, dpat % tv):
-                    problems.append('stored into %s, expected %s[%s]' % (tgt, dest, dpat % tv))
+                tgt = None
+                if isinstance(st, ast.Assign) and isinstance(st.targets[0], ast.Subscript) and src(st.targets[0].value) == dest:
+                    tgt = util.canon_expr(st.targets[0].slice)
+                want_idx = util.canon_expr(ast.parse(dpat % tv, mode='eval').body)
+                if tgt != want_idx:
+                    problems.append('stored into %s[%s], expected %s[%s]' % (dest, tgt, dest, dpat % tv))
                 if any(isinstance(x, (ast.Break, ast.Return)) for x in ast.walk(lp)):
                     problems.append('loop over %s can exit early' % vec)
         ctx.ob('R1.4-iface-loop', 'lineage/%s/compute_lineage_propensities' % cls, not problems, where,
